@@ -66,5 +66,6 @@ def overlay_for(model, diff_text):
     """{path: new text} for every file touched by the diff, applied to the model's current sources."""
     out = {}
     for path, hunks in parse(diff_text).items():
-        out[path] = apply_to_text(model.source(path), hunks)
+        base = model.source(path) if model.exists(path) else ''          # a file the change adds
+        out[path] = apply_to_text(base, hunks) if base else '\n'.join(l for _, body in hunks for t, l in body if t in ' +') + '\n'
     return out
